@@ -98,7 +98,12 @@ def exec_then_denied(chk, stack, runner):
         if phase == "before":
             p.stdin.write(b"go\n"); p.stdin.flush()
             time.sleep(0.4)
-    failed = parse_failed(stack.ctl("failed"))
+    end = time.time() + 3.0
+    while True:
+        failed = parse_failed(stack.ctl("failed"))
+        if failed or seen[1] != (403, 0) or time.time() > end:
+            break
+        time.sleep(0.05)
     chk.case(nontrivial_key=("exec-then-denied", tuple(seen)))
     chk.count("exec_then_denied")
     d = {"pid": p.pid, "granted_program": exe_a, "program_after_exec": exe_b, "answers": seen,
@@ -157,7 +162,14 @@ def kept_connection_denials(chk, stack, runner, callers):
                 break
         if conn is not None:
             conn.close()
-        time.sleep(0.05)
+        # the summary is kept by an actor: give it a moment to take in the last message before calling a count wrong
+        end = time.time() + 3.0
+        while True:
+            got = sum(parse_failed(stack.ctl("failed")).values())
+            if got == want_failed or time.time() > end:
+                break
+            time.sleep(0.05)
+        time.sleep(0.1)
         got = sum(parse_failed(stack.ctl("failed")).values())
         if got != want_failed:
             chk.violation("failed-authorization summary does not count each denial exactly once under its caller",
